@@ -474,6 +474,10 @@ func (c *client) isAuthExpired() bool {
 func (c *client) Do(ctx context.Context, req *Request, opts ...RequestOption) (res *protocol.Packet, err error) {
 	c.RLock()
 	defer c.RUnlock()
+	// no conn yet: Dial was never called, or its very first attempt failed
+	if c.conn == nil {
+		return nil, errConnClosed
+	}
 	rp, e := protocol.NewRequest(c.conn.Context(), req.Cmd, req.Body)
 
 	if e != nil {
